@@ -50,6 +50,9 @@ type scenario struct {
 	Bound int
 	Body  func()
 	Check func(x *vsync.Execution) (outcome string, vs []viol)
+	// SameOutcome, when set, is the key of the violation reported if two schedules of this scenario
+	// end with different outcomes (schedule-independence oracle).
+	SameOutcome string
 }
 
 // suite is the per-property list of scenarios; it must be a deterministic function of the tier.
@@ -215,6 +218,11 @@ func worker(args []string) {
 		sc := scs.At(idx)
 		res.Scenarios++
 		local := map[string]bool{}
+		type firstSeen struct {
+			outcome string
+			choices []int
+		}
+		var firsts []firstSeen // first schedule of every distinct outcome of this scenario
 		var e *vsync.Explorer
 		e = &vsync.Explorer{Body: sc.Body, MaxBound: sc.Bound,
 			Before: func(prefix []int) {
@@ -234,6 +242,9 @@ func worker(args []string) {
 					res.OutcomeSamples = append(res.OutcomeSamples, outcome)
 				}
 				res.Outcomes[ok]++
+				if !local[ok] && sc.SameOutcome != "" {
+					firsts = append(firsts, firstSeen{outcome, x.Choices})
+				}
 				local[ok] = true
 				res.Steps += int64(x.Steps)
 				for _, v := range vs {
@@ -278,6 +289,28 @@ func worker(args []string) {
 				}
 			}}
 		e.Explore()
+		if sc.SameOutcome != "" && len(firsts) > 1 && res.Found[sc.SameOutcome] == nil {
+			// determinism guard: both schedules must reproduce their outcome twice
+			var tr []vsync.Step
+			for _, f := range firsts[:2] {
+				for rep := 0; rep < 2; rep++ {
+					y := e.Replay(f.choices)
+					if o, _ := sc.Check(y); o != f.outcome {
+						ev.Fatal("determinism guard: scenario %d %s schedule %v gave %q, replay gives %q", idx, sc.Name, f.choices, f.outcome, o)
+					}
+					tr = y.Trace
+				}
+			}
+			res.Found[sc.SameOutcome] = &found{Key: sc.SameOutcome, Scenario: idx, Name: sc.Name, Choices: firsts[1].choices, Trace: tr, Count: 1,
+				What: fmt.Sprintf("the result depends on the goroutine schedule: schedule %v gives %q, schedule %v gives %q", firsts[0].choices, firsts[0].outcome, firsts[1].choices, firsts[1].outcome)}
+		} else if sc.SameOutcome != "" && len(firsts) > 1 {
+			res.Found[sc.SameOutcome].Count++
+		}
+		if os.Getenv("VERIF_SCHED_DEBUG") != "" && len(firsts) > 1 {
+			for _, f := range firsts {
+				fmt.Fprintf(os.Stderr, "DEBUG multi-outcome %s %v %s\n", sc.Name, f.choices, f.outcome)
+			}
+		}
 		for b := range e.Execs {
 			for len(res.ExecsByBound) <= b {
 				res.ExecsByBound = append(res.ExecsByBound, 0)
